@@ -53,6 +53,28 @@ async def c0(a):
 
 def fa(a: int, b=None) -> int:
     return nxt()
+
+
+def fm(a, b=None):
+    """changes its first argument in place and hands the very same object back"""
+    if isinstance(a, dict):
+        if b is None:
+            a.clear()
+        else:
+            a[b] = b
+    elif isinstance(a, list):
+        a.append(b)
+    return a
+
+
+def gm(a):
+    """yields the very same object before and after changing it in place"""
+    yield a
+    if isinstance(a, dict):
+        a[0] = 0
+    elif isinstance(a, list):
+        del a[:]
+    yield a
 '''
 
 CONFIG_SRC = '''"""GENERATED config for the pipeline checks; settings come from the environment"""
@@ -155,6 +177,15 @@ def perform(M, rt, call, truth):
             out = e.value
         for v in got:
             note("yield", v)
+    elif f == "fm":
+        b = args[1] if len(args) > 1 else None
+        note("a", a0), note("b", b)            # as they were when the call started
+        out = M.fm(a0, b)
+    elif f == "gm":
+        note("a", a0)
+        g, out = M.gm(a0), None
+        for v in g:
+            note("yield", v)                   # as it was when it was yielded
     elif f == "c0":
         co = M.c0(a0)
         note("a", a0)
@@ -365,6 +396,9 @@ def gen_sound(tier, seed, env_text):
             c["ys"] = list(vals[1:3])
         return c
 
+    def mk2(f, a, b):
+        return {"f": f, "args": [a, b], "ret": absmodel.T("atom", "NoneType"), "ys": []}
+
     def add(label, histories, ks, rws, flags):
         n0 = len(cases)
         for h in histories:
@@ -422,6 +456,19 @@ def gen_sound(tier, seed, env_text):
             opt_then_other.append([mk_call(f, [first], A("int")), mk_call(f, [C("list", rec(b=t2), rec(a=A("int")))], first)])
     add("a key that is optional after one call and has another value type in a later call (k >= 2)", opt_then_other,
         [2, 3], ["NONE", "DEFAULT"], [""])
+    # equally named positions holding records of different shapes (their generated classes get one name)
+    same_name = [[mk_call("f0", [dk("a", "b"), A("NoneType")], A("int")), mk_call("K.m", [dk("c", "d")], A("int")),
+                  mk_call("K.s", [dk("e")], A("int"))],
+                 [mk_call("K.c", [dk("p", "q")], dk("r")), mk_call("K.m", [dk("q", "r", "s")], dk("p"))],
+                 [mk_call("f0", [C("dict", P(Sx("a"), dk("x", "y")), P(Sx("z"), A("int"))), A("NoneType")], A("int"))]]
+    add("equally named positions in several functions / a field named like its parameter, different record shapes",
+        same_name, [2, 3], ["NONE", "DEFAULT"], [""])
+    # the very same object is an argument and the return / yield value, changed in place in between
+    inplace = [[mk2("fm", dk("x"), A("int"))], [mk2("fm", dk("x", "y"), A("NoneType"))], [mk2("fm", dk("x", "y"), Sx("z"))],
+               [mk2("fm", C("list", dk("a")), dk("b"))], [mk2("fm", C("list", dk("a")), A("int")), mk2("fm", dk("x"), A("NoneType"))],
+               [{"f": "gm", "args": [dk("x", "y")], "ret": A("NoneType"), "ys": []}],
+               [{"f": "gm", "args": [C("list", dk("x"))], "ret": A("NoneType"), "ys": []}]]
+    add("the same object as argument and as return / yield value, changed in place in between", inplace, [0, 2, 3], ["NONE", "DEFAULT"], [""])
     ypool = [A("int"), Sx("s"), A("NoneType"), C("list", A("int")), C("tuple", Sx("s"), A("float")), absmodel.T("classobj", "mtfx.shapes.A"),
              A("mtfx.shapes.A"), C("set", A("int")), C("dict", P(A("int"), Sx("s"))), A("float")]
     add("one generator run yielding every ordered pair of 10 shapes (a generic first, one of its parameters later, ...)",
@@ -517,7 +564,7 @@ def gen_same(tier, seed, env_text):
 
 
 MINE = {"C01": {"EndToEndSound", "AnnotationResolves"}, "C14": {"OrderAndProcessFree", "TypedDictClassesOrderFree"},
-        "C06": {"StubTDBound", "StoredTDBound"}}
+        "C06": {"StubTDBound", "StoredTDBound", "TypedDictOnlyFromRecords"}}
 
 
 def causes_of(rec):
